@@ -20,6 +20,7 @@
 EXTENDS Naturals, FiniteSets, Sequences, TLC
 CONSTANTS N, MaxCmd, MaxVar, NCtx, HookKinds,
           Nesting,     \* BOOLEAN: stages may belong to an included pipeline (graph 1) and outer stages may include it
+          TaskAllow,   \* BOOLEAN: tasks may carry allow_failure themselves (besides the stage-level flag)
           AtomicLaunch \* BOOLEAN: a loop moves a stage from Waiting to Running in one atomic step (compare-and-swap);
                        \*   FALSE transcribes the code before the repair: the status is read, then written
 Stages == 1..N
@@ -27,6 +28,7 @@ Ctxs == 1..NCtx
 Classes == {"OK", "FAIL", "FAILA", "CFALSE"}
 Graphs == {0, 1}
 VARIABLES deps, cls, ncmd, failAt, nvar, ctx, hb, ha, upFails,   \* configuration
+          tallow,                                        \* the TASK allows failure: a failing command does not end the run
           gr, inc,                                       \* graph of a stage (0 outer, 1 the included pipeline);
                                                          \*   inc[s]: outer stage s runs the included pipeline
           status, gerr, loop,                            \* scheduler: stage statuses, g.error per graph, outer loop alive
@@ -38,12 +40,14 @@ VARIABLES deps, cls, ncmd, failAt, nvar, ctx, hb, ha, upFails,   \* configuratio
           rpc, pt, role, done, rfail, ran,               \* run: none | entered | exited; progress point; job
                                                          \*   in execution; commands done; failed; hooks run
           upst, dn                                       \* context: up no|running|ok|failed; down no|running|done
-cfgv == <<deps, cls, ncmd, failAt, nvar, ctx, hb, ha, upFails, gr, inc>>
-vars == <<deps, cls, ncmd, failAt, nvar, ctx, hb, ha, upFails, gr, inc, status, gerr, loop, want, twice, want, twice, nl, by, gpc, rpc, pt, role, done, rfail, ran, upst, dn>>
+cfgv == <<deps, cls, ncmd, failAt, nvar, ctx, hb, ha, upFails, tallow, gr, inc>>
+vars == <<deps, cls, ncmd, failAt, nvar, ctx, hb, ha, upFails, tallow, gr, inc, status, gerr, loop, want, twice, want, twice, nl, by, gpc, rpc, pt, role, done, rfail, ran, upst, dn>>
 
 Allow(s) == cls[s] = "FAILA"
 Fails(s) == cls[s] \in {"FAIL", "FAILA"}          \* the command at position failAt exits non-zero
 Total(s) == ncmd[s] * nvar[s]
+\* the command about to end is the failing one (position failAt of the command list, in every variation)
+FailsNow(s) == Fails(s) /\ (done[s] % ncmd[s]) + 1 = failAt[s]
 Sat(d) == status[d] \in {"D", "S"} \/ (status[d] = "E" /\ Allow(d))
 Blocked(d) == (status[d] = "E" /\ ~Allow(d)) \/ status[d] = "C"
 
@@ -60,6 +64,7 @@ Init == /\ gr \in (IF Nesting THEN [Stages -> Graphs] ELSE {[s \in Stages |-> 0]
         /\ ctx \in [Stages -> 0..NCtx]
         /\ hb \in [Stages -> HookKinds] /\ ha \in [Stages -> HookKinds]
         /\ upFails \in [Ctxs -> BOOLEAN]
+        /\ tallow \in [Stages -> (IF TaskAllow THEN BOOLEAN ELSE {FALSE})]
         /\ status = [s \in Stages |-> "W"] /\ gerr = [g \in Graphs |-> FALSE] /\ loop = TRUE
         /\ nl = [s \in Stages |-> "none"] /\ by = [s \in Stages |-> 0]
         /\ want = [s \in Stages |-> {}] /\ twice = FALSE
@@ -144,7 +149,7 @@ CmdEnd(s) ==
        [] role[s] = "tb"  -> /\ pt' = [pt EXCEPT ![s] = "tbd"] /\ ran' = [ran EXCEPT ![s] = @ \cup {"tb"}]
                              /\ rfail' = [rfail EXCEPT ![s] = hb[s] = "fail"] /\ UNCHANGED <<upst, done>>
        [] role[s] = "cmd" -> /\ pt' = [pt EXCEPT ![s] = "cmd"] /\ done' = [done EXCEPT ![s] = @ + 1]
-                             /\ rfail' = [rfail EXCEPT ![s] = Fails(s) /\ done[s] + 1 = failAt[s]] /\ UNCHANGED <<upst, ran>>
+                             /\ rfail' = [rfail EXCEPT ![s] = FailsNow(s) /\ ~tallow[s]] /\ UNCHANGED <<upst, ran>>
        [] role[s] = "ta"  -> /\ pt' = [pt EXCEPT ![s] = "tad"] /\ ran' = [ran EXCEPT ![s] = @ \cup {"ta"}]
                              /\ UNCHANGED <<upst, done, rfail>>       \* a failing after hook is only logged
        [] OTHER           -> pt' = [pt EXCEPT ![s] = "cad"] /\ ran' = [ran EXCEPT ![s] = @ \cup {"ca"}] /\ UNCHANGED <<upst, done, rfail>>
@@ -186,7 +191,8 @@ UpOK(s) == ctx[s] = 0 \/ ~upFails[ctx[s]]
 RECURSIVE Exp(_)
 InnerFails == \E t \in Inner : Exp(t) = "E"
 TaskFails(s) == IF inc[s] THEN InnerFails
-                ELSE ~UpOK(s) \/ hb[s] = "fail" \/ Fails(s)     \* not: a failing after hook
+                ELSE ~UpOK(s) \/ hb[s] = "fail" \/ (Fails(s) /\ ~tallow[s])   \* not: a failing after hook, nor a
+                                                                             \* failing command of a task that allows failure
 Exp(s) == IF cls[s] = "CFALSE" THEN "S"
           ELSE IF \E d \in deps[s] : Exp(d) \in {"E", "C"} THEN "C"
           ELSE IF TaskFails(s) /\ ~Allow(s) THEN "E" ELSE "D"
@@ -195,10 +201,10 @@ Reached(s) == gr[s] = 0 \/ \E i \in Stages : inc[i] /\ Exp(i) \in {"D", "E"}
 ExpFinal(s) == IF Reached(s) THEN Exp(s) ELSE "W"
 Launched(s) == ExpFinal(s) \in {"D", "E"}
 RunsTask(s) == Launched(s) /\ ~inc[s]
-ExpDone(s) == IF ~RunsTask(s) \/ ~UpOK(s) \/ hb[s] = "fail" THEN 0 ELSE IF Fails(s) THEN failAt[s] ELSE Total(s)
+ExpDone(s) == IF ~RunsTask(s) \/ ~UpOK(s) \/ hb[s] = "fail" THEN 0 ELSE IF Fails(s) /\ ~tallow[s] THEN failAt[s] ELSE Total(s)
 ExpRan(s) == IF ~RunsTask(s) \/ ~UpOK(s) THEN {}
              ELSE (IF ctx[s] # 0 THEN {"cb", "ca"} ELSE {}) \cup (IF hb[s] # "none" THEN {"tb"} ELSE {})
-                  \cup (IF ha[s] # "none" /\ hb[s] # "fail" /\ ~Fails(s) THEN {"ta"} ELSE {})
+                  \cup (IF ha[s] # "none" /\ hb[s] # "fail" /\ (~Fails(s) \/ tallow[s]) THEN {"ta"} ELSE {})
 AllOver == Returned /\ \A c \in Ctxs : dn[c] \notin {"running"} /\ (upst[c] # "no" => dn[c] = "done")
 Busy(s) == role[s] # "none" \/ rpc[s] = "entered"
 \* what a dependency ran is completely over
@@ -211,7 +217,7 @@ CommandsAfterDependencies ==
   \A s \in Stages : Busy(s) => /\ \A d \in deps[s] : Over(d)
                                /\ gr[s] = 1 => by[s] # 0 /\ \A d \in deps[by[s]] : Over(d)
 \* C06: jobs of one run never overlap (role is one value) and none starts after the failing one
-StopsAtFailure == \A s \in Stages : /\ (Fails(s) => done[s] <= failAt[s])
+StopsAtFailure == \A s \in Stages : /\ (Fails(s) /\ ~tallow[s] => done[s] <= failAt[s])
                                     /\ (hb[s] = "fail" /\ "tb" \in ran[s] => done[s] = 0 /\ "ta" \notin ran[s])
 \* C14: a context is up before anything of a task in it runs; down only after everything is over, once
 UpBeforeUse == \A s \in Stages : (role[s] \notin {"none", "up"} /\ ctx[s] # 0) => upst[ctx[s]] = "ok"
